@@ -45,7 +45,7 @@
    "current block has no out-edge yet" invariant of Cfg/BuilderFrame.v), Cfg/BuilderCx.v (DFS visits every block once;
    glue).  The <= 4-node vm_compute theorem of Cfg/BuilderBounded.v is recovered as an instance (C03_check_one_all). *)
 From Coq Require Import NArith List.
-From PV Require Import Py.PyAST Cfg.Flow Cfg.FlowSpec Cfg.FlowMcCabe Cfg.Builder Cfg.BuilderBounded Cfg.BuilderCx.
+From PV Require Import Py.PyAST Cfg.Flow Cfg.FlowSpec Cfg.FlowMcCabe Cfg.Builder Cfg.BuilderBounded Cfg.BuilderCx Cfg.RiskMonoCx.
 Import ListNotations.
 
 (* the exact relation: the code misses the second and further if clauses of each for clause of a live comprehension *)
@@ -92,6 +92,14 @@ Theorem C03_risk : forall c lo med,
   (risk_of c lo med = Medium <-> lo < c /\ c <= med) /\
   (risk_of c lo med = High <-> lo < c /\ med < c).
 Proof. exact risk_table. Qed.
+
+(* the risk level is monotone in the complexity (any thresholds) and never rises when thresholds are raised *)
+Theorem C03_risk_monotone : forall c c' lo med, c <= c' ->
+  cx_risk_rank (risk_of c lo med) <= cx_risk_rank (risk_of c' lo med).
+Proof. exact cx_risk_mono. Qed.
+Theorem C03_risk_threshold_monotone : forall c lo lo' med med', lo <= lo' -> med <= med' ->
+  cx_risk_rank (risk_of c lo' med') <= cx_risk_rank (risk_of c lo med).
+Proof. exact cx_risk_threshold_mono. Qed.
 
 (* else / break / continue / return contribute nothing; a decision inside dead code is not counted *)
 Example C03_example :
@@ -176,3 +184,5 @@ Print Assumptions C03_mccabe_every_def_up_to_extra_ifs.
 Print Assumptions C03_mccabe_every_def_partial.
 Print Assumptions C03_invariant.
 Print Assumptions C03_risk.
+Print Assumptions C03_risk_monotone.
+Print Assumptions C03_risk_threshold_monotone.
